@@ -68,47 +68,25 @@ def runPb (cfg fail items : String) : String :=
     | _, _, _, _ => "bad-case"
   | _, _ => "bad-case"
 
-/-! ## cs (checker) -/
+/-! ## cs (checker)
 
-/-- a possible cache: (text number, id variant it was prepared under) -/
-abbrev PCache := List (Nat × Nat)
+The checker EXECUTES the model (`Model/PreparedSession.lean`): `cacheGet`, `addPrepared`, `cacheAdd` (hence `evictLoop`,
+`cacheInsert`), `cachingBatch` (hence `resolveAll`, `missed`, `allPrepared`), `prepareNongeneric` (hence `prepareOnAll`,
+`afterFirstOk`, `allSame`). What the model takes as arguments is enumerated here: the victim the map's iterator yields
+(`pick`: every choice), the order in which concurrent preparations complete (every permutation), the order in which
+the connections are iterated (every permutation of the per-node answers the harness prints). The candidate set is the
+set of caches the MODEL can be in; a line is echoed iff some candidate produces exactly it. -/
 
-structure CsState where
-  n : Nat
-  cap : Nat
-  mismatch : List (Nat × Nat)   -- (node, text) flags that are on
-  refuse : List Nat
-  caches : List PCache
+def csTexts : List String :=
+  ["SELECT pk, v FROM ks.t WHERE pk = ?", "  SELECT pk, v FROM ks.t WHERE pk = ?\n", "select pk, v from ks.t where pk = ?;",
+   "INSERT INTO ks.t (pk, v) VALUES (?, 1) -- ü ☃", "INSERT INTO ks.t (pk, v)\n  VALUES (?, 2)"]
 
-def hasFlag (st : CsState) (node t : Nat) : Bool := st.mismatch.contains (node, t)
-
-/-- what `Session::prepare` of text t yields now: `some variant` or `none` = error; and the PREPARE frames per node -/
-def sessionPrepare (st : CsState) (t : Nat) : Except String Nat × Nat :=
-  if st.refuse.contains t then (.error "err:prep:allfailed", 2 * st.n)
-  else
-    let flags := (List.range st.n).map (fun node => hasFlag st node t)
-    if flags.all id then (.ok 1, st.n)
-    else if flags.all (!·) then (.ok 0, st.n)
-    else (.error "err:prep:mismatch", 2 * st.n)
+def textNo (s : String) : Nat := (csTexts.findIdx? (· == s)).getD 99
 
 def removeNth : List α → Nat → List α
   | [], _ => []
   | _ :: xs, 0 => xs
   | x :: xs, n + 1 => x :: removeNth xs n
-
-/-- all results of `while cap <= len { remove any }` -/
-def evictAll (cap : Nat) : Nat → PCache → List PCache
-  | 0, c => [c]
-  | fuel + 1, c =>
-    if cap ≤ c.length then ((List.range c.length).map (fun i => evictAll cap fuel (removeNth c i))).flatten else [c]
-
-def addAll (cap : Nat) (c : PCache) (e : Nat × Nat) : List PCache :=
-  -- the eviction loop runs on the cache as it is (the key may already be there), then `insert` replaces
-  (evictAll cap c.length c).map (fun c' => e :: c'.filter (fun x => x.1 != e.1))
-
-def normalize (c : PCache) : PCache := c.mergeSort (fun a b => a.1 < b.1 || (a.1 == b.1 && a.2 ≤ b.2))
-
-def dedupCaches (cs : List PCache) : List PCache := (cs.map normalize).eraseDups
 
 /-- all permutations (small lists; `fuel` ≥ length) -/
 def perms : Nat → List α → List (List α)
@@ -118,120 +96,204 @@ def perms : Nat → List α → List (List α)
       | some x => (perms fuel (removeNth xs i)).map (x :: ·)
       | none => [])).flatten
 
-/-- add the entries in every order, with every eviction choice -/
-def addMany (cap : Nat) (c : PCache) (es : List (Nat × Nat)) : List PCache :=
-  ((perms es.length es).map (fun order =>
-    order.foldl (fun (cs : List PCache) e => (cs.map (fun c' => addAll cap c' e)).flatten) [c])).flatten
+/-- a `pick` for the model: which key the map's iterator yields, as a function of the cache (by its length) -/
+def pickOf (script : List Nat) : Cache → String :=
+  fun c => ((c[(script.getD c.length 0) % (max c.length 1)]?).map (·.1)).getD ""
 
-def parsePrep (s : String) : Option (List (Nat × Nat)) :=
+/-- all scripts for caches of length ≤ `len`: one index per length -/
+def scripts : Nat → List (List Nat)
+  | 0 => [[0]]
+  | len + 1 => ((scripts len).map (fun s => (List.range (len + 1)).map (fun i => s ++ [i]))).flatten
+
+def normCache (c : Cache) : Cache := c.mergeSort (fun a b => a.1 ≤ b.1)
+
+def dedupC (cs : List Cache) : List Cache := (cs.map normCache).eraseDups
+
+/-- every cache the model's `cacheAdd` can produce -/
+def cacheAddChoices (cap : Nat) (c : Cache) (s : PStmt) : List Cache :=
+  dedupC ((scripts c.length).map (fun sc => cacheAdd cap (pickOf sc) c s))
+
+/-- the per-node answers of one text, as printed by the harness: `o<variant>*<frames>` / `e<code>*<frames>` -/
+structure NodeAns where
+  ans : Except Nat String
+  frames : Nat
+
+def parseAns (text : String) (w : String) : Option NodeAns :=
+  match w.splitOn "*" with
+  | [a, c] =>
+    match a.toList, c.toNat? with
+    | 'o' :: v, some c => some ⟨.ok (text ++ "#" ++ String.ofList v), c⟩
+    | 'e' :: code, some c => (String.ofList code).toNat?.map (fun e => ⟨.error e, c⟩)
+    | _, _ => none
+  | _ => none
+
+/-- `pa=t0@o0*1,e8704*1+t3@…` -/
+def parsePa (s : String) : Option (List (Nat × List NodeAns)) :=
   if s == "-" then some []
-  else (s.splitOn ",").mapM (fun w => match w.splitOn "x" with
-    | [a, b] => match a.toNat?, b.toNat? with | some a, some b => some (a, b) | _, _ => none
+  else (s.splitOn "+").mapM (fun part => match part.splitOn "@" with
+    | [th, rest] =>
+      match th.toList with
+      | 't' :: d =>
+        match (String.ofList d).toNat? with
+        | some t => ((rest.splitOn ",").mapM (parseAns (csTexts.getD t ""))).map (fun l => (t, l))
+        | none => none
+      | _ => none
     | _ => none)
+
+instance : BEq (Except PErr String) :=
+  ⟨fun a b => match a, b with
+    | .ok x, .ok y => x == y
+    | .error x, .error y => decide (x = y)
+    | _, _ => false⟩
+
+def perrLabel : PErr → String
+  | .allAttemptsFailed e => s!"err:prep:allfailed:{e}"
+  | .idsMismatch => "err:prep:mismatch"
+  | .noConnections => "err:pool"
+
+/-- the outcomes `Session::prepare` can have for these per-node answers (any iteration order of the connections;
+`conns` connections per node in the per-shard attempt), computed by the MODEL's `prepareNongeneric` -/
+def prepareOutcomes (conns : Nat) (answers : List NodeAns) : List (Except PErr String) :=
+  ((perms answers.length (answers.map (·.ans))).map (fun p =>
+    prepareNongeneric p ((p.map (fun a => List.replicate conns a)).flatten))).eraseDups
+
+/-- frames per node for `calls` preparations: one each, plus `conns` each if the per-node attempt failed -/
+def framesOk (conns calls : Nat) (answers : List NodeAns) : Bool :=
+  let firstOk := match prepareOnAll (answers.map (·.ans)) with | .ok _ => true | .error _ => false
+  answers.all (fun a => a.frames == calls * (1 + (if firstOk then 0 else conns)))
+
+structure CsState where
+  n : Nat
+  conns : Nat
+  cap : Nat
+  u : Bool
+  cands : List Cache
+
+def showIdHex (id : String) : String :=
+  match id.splitOn "#" with
+  | [] => ""
+  | parts => hexOfString ("#".intercalate parts.dropLast) ++ "#" ++ parts.getLastD ""
+
+def hex2 (n : Nat) : String := ScyllaVerif.Prepared.hexByte n
+
+def cfgOf (k : Nat) : Cfg × Nat :=
+  match k with
+  | 0 => (⟨some 1, none, none, false⟩, 7)
+  | 1 => (⟨some 4, none, none, true⟩, 5000)
+  | _ => (⟨some 6, none, none, false⟩, 123)
+
+/-- the EXECUTE the session sends for a handle (execute_single_page): id, the caller's value, the HANDLE's consistency,
+skip_metadata = the handle's use_cached flag (for statements with result columns), the HANDLE's page size -/
+def execToken (h : PStmt) (idx t : Nat) : String :=
+  s!"EXEC {showIdHex h.id} v=x{hex2 idx}{hex2 t} cl={optS toString h.cfg.cl} sk={if h.useCached && t < 3 then 1 else 0} pg={h.page}"
+
+def batchToken (b : Batch) (idx : Nat) : String :=
+  let items := b.stmts.zipIdx.map (fun (s, j) => match s with
+    | .prepared p => s!"i:{showIdHex p.id}/x{hex2 idx}{hex2 j}"
+    | .query q => s!"t:{hexOfString q.text}/x{hex2 idx}{hex2 j}")
+  s!"ty{b.ty} {",".intercalate items} cl={optS toString b.cfg.cl} scl={optS toString b.cfg.scl} ts={optS toString b.cfg.ts}"
 
 def digitAt (cs : List Char) (i : Nat) : Option Nat :=
   match cs[i]? with
   | some c => if c.isDigit then some (c.toNat - 48) else none
   | none => none
 
-def variantOfFrame (frame : String) (t : Nat) (texts : List String) : Option Nat :=
-  -- the id printed in the frame is hex(text)#variant
-  match texts[t]? with
-  | none => none
-  | some tx =>
-    let h := hexOfString tx
-    if (frame.splitOn (h ++ "#0")).length > 1 then some 0
-    else if (frame.splitOn (h ++ "#1")).length > 1 then some 1 else none
+def toNatErr : Except PErr String → Except Nat String
+  | .ok id => .ok id
+  | .error (.allAttemptsFailed e) => .error e
+  | .error .idsMismatch => .error 1
+  | .error .noConnections => .error 2
 
-def csTexts : List String :=
-  ["SELECT pk, v FROM ks.t WHERE pk = ?", "  SELECT pk, v FROM ks.t WHERE pk = ?\n", "select pk, v from ks.t where pk = ?;",
-   "INSERT INTO ks.t (pk, v) VALUES (?, 1) -- ü ☃", "INSERT INTO ks.t (pk, v)\n  VALUES (?, 2)"]
-
-/-- one op: the new state, or why the implementation's token is not producible -/
-def csStep (st : CsState) (op tok : String) : Except String CsState :=
+/-- one op: the candidate caches after it, or why the implementation's token is not producible by the model -/
+def csStep (st : CsState) (idx : Nat) (op tok : String) : Except String CsState :=
   let cs := op.toList
   match cs with
-  | 'M' :: _ | 'N' :: _ =>
-    match digitAt cs 1, digitAt cs 3 with
-    | some node, some t =>
-      if tok != op then .error "event token" else
-      let rest := st.mismatch.filter (· != (node, t))
-      .ok { st with mismatch := if cs.head? == some 'M' then (node, t) :: rest else rest }
-    | _, _ => .error "bad op"
-  | 'F' :: _ | 'G' :: _ =>
-    match digitAt cs 1 with
-    | some t =>
-      if tok != op then .error "event token" else
-      let rest := st.refuse.filter (· != t)
-      .ok { st with refuse := if cs.head? == some 'F' then t :: rest else rest }
-    | none => .error "bad op"
+  | 'M' :: _ | 'N' :: _ | 'F' :: _ | 'G' :: _ => if tok == op then .ok st else .error "event token"
   | 'x' :: _ =>
-    match digitAt cs 1, tok.splitOn "~" with
-    | some t, opE :: prepE :: rest =>
+    match digitAt cs 1, digitAt cs 3, tok.splitOn "~" with
+    | some t, some k, [opE, paE, frame, res] =>
       if opE != op then .error "op echo" else
-      let res := rest.getLastD ""
-      let frame := "~".intercalate rest.dropLast
-      match parsePrep ((prepE.splitOn "=").getLastD "") with
-      | none => .error "unparsable prep"
-      | some [] =>
-        -- a HIT: some possible cache holds the text; the EXECUTE carries the id it was cached under
-        let hits := st.caches.filter (fun c => c.any (·.1 == t))
-        if hits.isEmpty then .error s!"no PREPARE although text {t} cannot be cached" else
-        if res != "ok" then .error "a cache hit must execute" else
-        match variantOfFrame frame t csTexts with
-        | none => .error "the EXECUTE does not carry an id of the text"
-        | some v =>
-          let ok := hits.filter (fun c => c.contains (t, v))
-          if ok.isEmpty then .error "the EXECUTE carries an id the text was never cached under" else
-          .ok { st with caches := dedupCaches ok }
-      | some [(t', cnt)] =>
-        if t' != t then .error "PREPARE of another text" else
-        let misses := st.caches.filter (fun c => !c.any (·.1 == t))
-        if misses.isEmpty then .error s!"PREPARE although text {t} must be cached" else
-        let (outcome, frames) := sessionPrepare st t
-        if cnt != frames then .error s!"{cnt} PREPARE frames, expected {frames}" else
-        match outcome with
-        | .error lbl => if res == lbl then .ok { st with caches := dedupCaches misses } else .error s!"expected {lbl}"
-        | .ok v =>
-          if res != "ok" then .error "preparation succeeded, the execution must too" else
-          if variantOfFrame frame t csTexts != some v then .error "the EXECUTE does not carry the id just prepared" else
-          .ok { st with caches := dedupCaches ((misses.map (fun c => addAll st.cap c (t, v))).flatten) }
-      | _ => .error "PREPAREs of several texts for one execute_unpaged"
-    | _, _ => .error "bad op"
+      match parsePa ((paE.splitOn "pa=").getLastD "") with
+      | none => .error "unparsable pa"
+      | some pa =>
+        let (cfg, page) := cfgOf k
+        let q : Query := ⟨csTexts.getD t "", cfg, page⟩
+        -- every way the MODEL's add_prepared_statement can go from every candidate cache
+        let outcomes : List (Except PErr String) := match pa.lookup t with
+          | some answers => if framesOk st.conns 1 answers then prepareOutcomes st.conns answers else []
+          | none => []
+        let fromCache (c : Cache) : List (Option Cache) :=
+          match cacheGet q.text c with
+          | some _ =>
+            -- a hit: nothing may have been prepared
+            if !pa.isEmpty then [] else
+            match addPrepared st.cap st.u (fun _ => .error 0) (pickOf []) c q with
+            | .ok (h, c', false) => if frame == execToken h idx t && res == "ok" then [some c'] else []
+            | _ => []
+          | none =>
+            if pa.length != 1 then [] else
+            let perOutcome (o : Except PErr String) : List (Option Cache) :=
+              (scripts c.length).map (fun sc =>
+                match addPrepared st.cap st.u (fun _ => toNatErr o) (pickOf sc) c q with
+                | .ok (h, c', true) => if frame == execToken h idx t && res == "ok" then some c' else none
+                | .error _ =>
+                  (match o with
+                   | .error pe => if res == perrLabel pe && frame == "-" then some c else none
+                   | .ok _ => none)
+                | _ => none)
+            (outcomes.map perOutcome).flatten
+        let results : List (Option Cache) := (st.cands.map fromCache).flatten
+        let next := dedupC (results.filterMap id)
+        if next.isEmpty then .error s!"not producible by the model from any of its {st.cands.length} cache(s)" else .ok { st with cands := next }
+    | _, _, _ => .error "bad token"
   | 'b' :: body =>
     match tok.splitOn "~" with
-    | opE :: prepE :: rest =>
+    | [opE, paE, frame, res] =>
       if opE != op then .error "op echo" else
-      let res := rest.getLastD ""
-      let qs : List Nat := (List.range (body.length / 2)).filterMap (fun j =>
-        if body[2 * j]? == some 'q' then digitAt body (2 * j + 1) else none)
-      match parsePrep ((prepE.splitOn "=").getLastD "") with
-      | none => .error "unparsable prep"
-      | some prep =>
-        let missedTexts := (prep.map (·.1)).eraseDups
-        if missedTexts.any (fun t => !qs.contains t) then .error "PREPARE of a text that is not an unprepared statement of the batch" else
-        -- consistent caches: exactly the unprepared texts WITHOUT prepare frames are cached
-        let consistent := st.caches.filter (fun c => qs.all (fun t => (c.any (·.1 == t)) == !missedTexts.contains t))
-        if consistent.isEmpty then .error "hit/miss pattern impossible for every cache the model can be in" else
-        let outcomes := missedTexts.map (fun t => (t, sessionPrepare st t))
-        let failing := outcomes.filter (fun o => match o.2.1 with | .error _ => true | .ok _ => false)
-        if failing.isEmpty then
-          -- every miss is asked once per unprepared statement carrying it
-          let countsOk := outcomes.all (fun (t, (_, frames)) => prep.lookup t == some (frames * (qs.filter (· == t)).length))
-          if !countsOk then .error "number of PREPARE frames" else
-          if res != "ok" then .error "every preparation succeeded, the batch must be executed" else
-          -- one cache insertion per unprepared statement that missed (two statements with the same text: two insertions,
-          -- each preceded by its own eviction loop)
-          let entries := (qs.filter (fun t => missedTexts.contains t)).filterMap (fun t => match (sessionPrepare st t).1 with
-            | .ok v => some (t, v) | .error _ => none)
-          .ok { st with caches := dedupCaches ((consistent.map (fun c => addMany st.cap c entries)).flatten) }
-        else
-          -- try_join_all fails with one of the errors; the other preparations may or may not have reached the cache
-          if !(failing.any (fun o => match o.2.1 with | .error l => l == res | .ok _ => false)) then .error "the batch must fail with a preparation error" else
-          let good := (qs.filter (fun t => missedTexts.contains t)).filterMap (fun t => match (sessionPrepare st t).1 with
-            | .ok v => some (t, v) | .error _ => none)
-          let subsets := good.foldl (fun (acc : List (List (Nat × Nat))) e => acc ++ acc.map (e :: ·)) [[]]
-          .ok { st with caches := dedupCaches ((consistent.map (fun c => (subsets.map (fun s => addMany st.cap c s)).flatten)).flatten) }
+      match parsePa ((paE.splitOn "pa=").getLastD "") with
+      | none => .error "unparsable pa"
+      | some pa =>
+        let stmts : List BStmt := (List.range (body.length / 2)).filterMap (fun j =>
+          match body[2 * j]?, digitAt body (2 * j + 1) with
+          | some 'q', some t => some (.query ⟨csTexts.getD t "", Cfg.default, 5000⟩)
+          | some 'p', some t => some (.prepared ⟨csTexts.getD t "" ++ "#0", csTexts.getD t "", Cfg.default, 5000, false⟩)
+          | _, _ => none)
+        let b : Batch := ⟨1, ⟨some 4, some 9, some (Int.ofNat (1000 + idx)), idx % 2 == 0⟩, stmts⟩
+        let results : List Cache := (st.cands.map (fun c =>
+          -- the texts the MODEL asks the cluster about, with multiplicity
+          let missedQ := if allPrepared b then [] else missed c b.stmts
+          let missedT := missedQ.map (fun q => textNo q.text)
+          -- the harness must have seen PREPAREs for exactly those texts, the right number of frames per node
+          if !(pa.all (fun (t, _) => missedT.contains t)) || !(missedT.all (fun t => (pa.lookup t).isSome)) then [] else
+          if !(pa.all (fun (t, answers) => framesOk st.conns (missedT.filter (· == t)).length answers)) then [] else
+          -- one outcome choice per text (usually a single one)
+          let choice : List (Nat × List (Except PErr String)) := pa.map (fun (t, answers) => (t, prepareOutcomes st.conns answers))
+          let combos : List (List (Nat × Except PErr String)) := choice.foldl (fun acc (t, os) =>
+            (acc.map (fun a => os.map (fun o => a ++ [(t, o)]))).flatten) [[]]
+          (combos.map (fun combo =>
+            let prep : String → Except Nat String := fun text => match combo.lookup (textNo text) with
+              | some o => toNatErr o
+              | none => .error 0
+            match cachingBatch st.u prep c b with
+            | .ok (b', _) =>
+              if frame != batchToken b' idx || res != "ok" then [] else
+              -- the misses reach the cache in any completion order, each with its own eviction choices
+              let done : List PStmt := missedQ.filterMap (fun q => match prep q.text with
+                | .ok id => some ⟨id, q.text, q.cfg, q.page, st.u⟩ | .error _ => none)
+              ((perms done.length done).map (fun order =>
+                order.foldl (fun (cs : List Cache) s => (cs.map (fun c' => cacheAddChoices st.cap c' s)).flatten) [c])).flatten
+            | .error _ =>
+              -- try_join_all fails with one of the preparation errors; the other preparations may or may not have
+              -- completed (and reached the cache) before that
+              let labels := combo.filterMap (fun (_, o) => match o with | .error pe => some (perrLabel pe) | .ok _ => none)
+              if !labels.contains res || frame != "-" then [] else
+              let good : List PStmt := missedQ.filterMap (fun q => match prep q.text with
+                | .ok id => some ⟨id, q.text, q.cfg, q.page, st.u⟩ | .error _ => none)
+              let subsets := good.foldl (fun (acc : List (List PStmt)) e => acc ++ acc.map (· ++ [e])) [[]]
+              (subsets.map (fun sub => ((perms sub.length sub).map (fun order =>
+                order.foldl (fun (cs : List Cache) s => (cs.map (fun c' => cacheAddChoices st.cap c' s)).flatten) [c])).flatten)).flatten)).flatten)).flatten
+        let next := dedupC results
+        if next.isEmpty then .error s!"not producible by the model from any of its {st.cands.length} cache(s)" else .ok { st with cands := next }
     | _ => .error "bad token"
   | _ => .error "bad op"
 
@@ -241,16 +303,28 @@ def getParam (ws : List String) (k : String) : Option String :=
 def runCs (ws : List String) (impl : String) : String :=
   match (getParam ws "n").bind String.toNat?, (getParam ws "cap").bind String.toNat?, getParam ws "ops" with
   | some n, some cap, some opsS =>
+    let u := getParam ws "u" == some "1"
+    let sh := ((getParam ws "sh").bind String.toNat?).getD 0
     let ops := (opsS.splitOn ".").filter (· ≠ "")
+    let opOk (op : String) : Bool :=
+      let cs := op.toList
+      match cs with
+      | [c, a, 't', d] => (c == 'M' || c == 'N' || c == 'F' || c == 'G') && a.isDigit && (a.toNat - 48) < n && d.isDigit && (d.toNat - 48) < 5
+      | ['x', a, 'c', k] => a.isDigit && (a.toNat - 48) < 5 && k.isDigit && (k.toNat - 48) < 3
+      | 'b' :: body => body.length % 2 == 0 && !body.isEmpty && body.length ≤ 12 &&
+          (List.range (body.length / 2)).all (fun j => (body[2 * j]? == some 'q' || body[2 * j]? == some 'p') &&
+            (match body[2 * j + 1]? with | some d => d.isDigit && (d.toNat - 48) < 5 | none => false))
+      | _ => false
+    if !(1 ≤ n && n ≤ 4 && 1 ≤ cap && cap ≤ 8 && (sh == 0 || sh == 2 || sh == 3) && ops.length ≤ 60 && ops.all opOk) then "bad-case" else
     let implT := impl.trimAscii.toString
     if implT.startsWith "e2e-skip" then implT else
     let toks := implT.splitOn " ; "
     if toks.length != ops.length then "REJECT token count" else
-    let st0 : CsState := ⟨n, cap, [], [], [[]]⟩
-    let r := (ops.zip toks).foldl (fun (acc : Except String CsState) (op, tok) =>
+    let st0 : CsState := ⟨n, max sh 1, cap, u, [[]]⟩
+    let r := ((ops.zip toks).zipIdx).foldl (fun (acc : Except String CsState) ((op, tok), idx) =>
       match acc with
       | .error e => .error e
-      | .ok st => match csStep st op tok with | .error e => .error s!"{op}: {e}" | .ok st' => .ok st') (.ok st0)
+      | .ok st => match csStep st idx op tok with | .error e => .error s!"{op}: {e}" | .ok st' => .ok st') (.ok st0)
     match r with
     | .ok _ => implT
     | .error e => "REJECT " ++ e
